@@ -77,11 +77,11 @@ let apply (o : obj) (op : str) : obj * str =
      | [] -> (o, "none")
      | [(i, _)] -> (set_value_at o i (val_of (n 2)), "ok")
      | (_, a) :: (_, b) :: _ -> (o, "dup " ^ estr a ^ " " ^ estr b))
-  | "setat" ->
+  | "setat" | "setatm" ->
     if n 1 < int_of_nat (length o.entries) then (set_value_at o (nat (n 1)) (val_of (n 2)), "ok") else (o, "none")
   | "ext" | "extp" -> (unopt (extend o (parse_pairs p.(1))), "ok")
-  | "fromvec" -> (unopt (from_vec (parse_pairs p.(1))), "ok")
-  | "fromiter" -> (unopt (from_iter (parse_pairs p.(1))), "ok")
+  | "fromvec" | "fromvecf" -> (unopt (from_vec (parse_pairs p.(1))), "ok")
+  | "fromiter" | "fromiterkv" -> (unopt (from_iter (parse_pairs p.(1))), "ok")
   | "clone" | "take" | "clonefrom" -> (o, "ok")
   | "reset" -> (empty_obj, "ok")
   | other -> (o, "BADOP(" ^ other ^ ")")
@@ -139,9 +139,9 @@ let m_apply (es : (n list * value) list) (op : str) : (n list * value) list * st
      | [] -> (es, "none")
      | [(i, _)] -> (m_set_value_at es i (val_of (n 2)), "ok")
      | (_, a) :: (_, b) :: _ -> (es, "dup " ^ estr a ^ " " ^ estr b))
-  | "setat" -> if n 1 < List.length es then (m_set_value_at es (nat (n 1)) (val_of (n 2)), "ok") else (es, "none")
+  | "setat" | "setatm" -> if n 1 < List.length es then (m_set_value_at es (nat (n 1)) (val_of (n 2)), "ok") else (es, "none")
   | "ext" | "extp" -> (m_extend es (parse_pairs p.(1)), "ok")
-  | "fromvec" | "fromiter" -> (m_from_vec (parse_pairs p.(1)), "ok")
+  | "fromvec" | "fromiter" | "fromvecf" | "fromiterkv" -> (m_from_vec (parse_pairs p.(1)), "ok")
   | "clone" | "take" | "clonefrom" -> (es, "ok")
   | "reset" -> ([], "ok")
   | other -> (es, "BADOP(" ^ other ^ ")")
